@@ -63,6 +63,9 @@ type mutResult struct {
 }
 
 // runMutant decides one mutant in this process.
+// mutantOutDir is the /verif directory (for known_findings.json); set by cmdSelftest.
+var mutantOutDir = "/verif"
+
 func runMutant(m Mutant, repo string) mutResult {
 	path := filepath.Join(repo, m.File)
 	src, err := os.ReadFile(path)
@@ -98,9 +101,21 @@ func runMutant(m Mutant, repo string) mutResult {
 		return mutResult{m.ID, "invalid", err.Error()}
 	}
 	rx := regexp.MustCompile(m.Expect)
+	// obligations listed as known findings of the unchanged tree are not evidence about the mutant
+	knownKeys := map[string]bool{}
+	if known, err := loadKnown(filepath.Join(mutantOutDir, "known_findings.json")); err == nil {
+		for _, k := range known {
+			if k.Status == "known" {
+				knownKeys[k.Key] = true
+			}
+		}
+	}
 	var failed []string
 	for _, o := range obs {
 		if o.Status != "holds" {
+			if knownKeys[strings.SplitN(o.Key, "@", 2)[0]] && (m.Expect == "" || !rx.MatchString(o.Key)) {
+				continue
+			}
 			failed = append(failed, o.Key)
 			if rx.MatchString(o.Key) {
 				return mutResult{m.ID, "killed", o.Key + ": " + o.Detail}
@@ -121,6 +136,7 @@ func cmdSelftest(args []string) int {
 	out := fs.String("out", "/verif", "verif directory")
 	par := fs.Int("j", 4, "parallel processes")
 	_ = fs.Parse(args)
+	mutantOutDir = *out
 	ms, err := loadMutants(*out)
 	if err != nil {
 		fmt.Fprintln(os.Stderr, err)
